@@ -132,7 +132,7 @@ func c10RoundTrip(c *vf.Ctx) {
 	if !c.Active(sub) {
 		return
 	}
-	n := c.N(8000, 500000)
+	n := c.N(40000, 500000)
 	for i := 0; i < n; i++ {
 		if !c.Mine(sub, i) {
 			continue
@@ -260,7 +260,7 @@ func c10Senders(c *vf.Ctx) {
 	}))
 	defer srv.Close()
 	su, _ := url.Parse(srv.URL)
-	n := c.N(400, 20000)
+	n := c.N(2000, 20000)
 	for i := 0; i < n; i++ {
 		if !c.Mine(sub, i) {
 			continue
@@ -359,7 +359,7 @@ func c10Hostile(c *vf.Ctx) {
 	if !c.Active(sub) {
 		return
 	}
-	n := c.N(30000, 5000000)
+	n := c.N(150000, 5000000)
 	for i := 0; i < n; i++ {
 		if !c.Mine(sub, i) {
 			continue
